@@ -65,7 +65,7 @@ func (prop) Cases(tier string, seed uint64) []core.Case {
 		reps = 600
 	}
 	for fi := range funcs {
-		for _, mode := range []string{"batch", "window", "eqtime"} {
+		for _, mode := range []string{"batch", "window", "eqtime", "overlap"} {
 			for rep := 0; rep < reps; rep++ {
 				cs = append(cs, core.Case{ID: fmt.Sprintf("%s%d-%s-%d", funcs[fi].name, fi, mode, rep), Kind: mode, Seed: seed*1301 + uint64(fi*1000+rep), Params: map[string]interface{}{"f": fi, "big": tier == "thorough" && rep%5 == 4}})
 			}
@@ -126,11 +126,23 @@ func (prop) Run(x *core.Ctx) {
 	f := funcs[c.PInt("f", 0)]
 	r := core.NewRng(c.Seed, 11)
 	mode := c.Kind
+	// overlap: windows of two periods emitted every period - every point is emitted in two
+	// consecutive batches (the same message objects), so an aggregation that writes to its input
+	// spoils the next window
+	overlap := mode == "overlap"
+	if overlap {
+		mode = "window"
+	}
 	as := ""
 	if r.Chance(0.5) {
 		as = []string{"out", "v", "x y"}[r.Intn(3)]
 	}
 	usePT := r.Chance(0.4)
+	if c.Kind == "overlap" {
+		// every point lies in two windows: only the batch end time says which window an output
+		// belongs to when the reference declines a batch
+		usePT = false
+	}
 	if f.name == "top" || f.name == "bottom" {
 		f.args = fmt.Sprintf(", %d", r.Range(1, 4))
 	}
@@ -158,7 +170,7 @@ func (prop) Run(x *core.Ctx) {
 		asName = f.name
 	}
 	byPointTime = usePT && f.selector
-	cfg := fmt.Sprintf("%s%s mode=%s as=%q usePointTimes=%v", f.name, f.args, mode, as, usePT)
+	cfg := fmt.Sprintf("%s%s mode=%s overlap=%v as=%q usePointTimes=%v", f.name, f.args, mode, overlap, as, usePT)
 	if !x.Announce(cfg) {
 		return
 	}
@@ -184,11 +196,16 @@ func (prop) Run(x *core.Ctx) {
 			kind := (g + b/3) % 2 // field kind changes between batches of a group
 			vals := genValues(r, n, kind)
 			bi := batchIn{group: fmt.Sprintf("g%d", g)}
+			runT := tm
+			if mode == "eqtime" && !f.transform && b >= 2 && r.Chance(0.15) {
+				// a late run: its timestamp lies before the previous run's. It is still a run of its own.
+				runT = tm.Add(-15 * time.Second)
+			}
 			for i := 0; i < n; i++ {
 				p := pnt{v: vals[i], w: float64(i), host: []string{"a", "b", "c"}[r.Intn(3)]}
 				switch {
 				case mode == "eqtime" && !f.transform:
-					p.t = tm // all points of the run share the timestamp
+					p.t = runT // all points of the run share the timestamp
 				default:
 					p.t = tm.Add(time.Duration(i) * 10 * time.Millisecond * time.Duration(1+r.Intn(3)))
 					if i > 0 && !p.t.After(bi.pts[i-1].t) {
@@ -209,11 +226,21 @@ func (prop) Run(x *core.Ctx) {
 				bi.pts = append(bi.pts, p)
 			}
 			bi.tmax = tm.Add(9 * time.Second)
+			if mode == "batch" && f.transform && b > 0 && r.Chance(0.25) {
+				// two consecutive batches of a group with the same end time are still two batches:
+				// the previous batch of this group gets this batch's (later) end time
+				for k := len(batches) - 1; k >= 0; k-- {
+					if batches[k].group == bi.group {
+						batches[k].tmax = bi.tmax
+						break
+					}
+				}
+			}
 			if mode == "window" {
 				bi.tmax = tm.Add(10 * time.Second) // the window's end
 			}
 			if mode == "eqtime" {
-				bi.tmax = tm
+				bi.tmax = runT
 			}
 			batches = append(batches, bi)
 		}
@@ -257,7 +284,9 @@ func (prop) Run(x *core.Ctx) {
 		}
 	default:
 		script = "stream|from().measurement('m').groupBy('g')"
-		if mode == "window" {
+		if mode == "window" && overlap {
+			script += "|window().period(20s).every(10s).align()"
+		} else if mode == "window" {
 			script += "|window().period(10s).every(10s).align()"
 		}
 		script += call + "|log().prefix('out')"
@@ -279,6 +308,22 @@ func (prop) Run(x *core.Ctx) {
 			x.Violatef("task-error", "aggregation task ended with error", cfg, "%v", err)
 			return
 		}
+	}
+	if overlap {
+		// what window k of a group holds: the points of segment k-1 and segment k
+		var merged []batchIn
+		prev := map[string]*batchIn{}
+		for i := range batches {
+			b := batches[i]
+			m := batchIn{group: b.group, tmax: b.tmax}
+			if p := prev[b.group]; p != nil {
+				m.pts = append(m.pts, p.pts...)
+			}
+			m.pts = append(m.pts, b.pts...)
+			merged = append(merged, m)
+			prev[b.group] = &batches[i]
+		}
+		batches = merged
 	}
 	items := env.Rec.Sink("out").Items()
 	// outputs per group in order
@@ -623,14 +668,14 @@ func expect(f fspec, b batchIn, as string, usePT bool, mode string) expectation 
 		cnt := map[string]int{}
 		best := 0
 		for _, u := range us {
-			cnt[fmt.Sprint(val(u))]++
-			if cnt[fmt.Sprint(val(u))] > best {
-				best = cnt[fmt.Sprint(val(u))]
+			cnt[zkey(val(u))]++ // -0 and +0 are one value
+			if cnt[zkey(val(u))] > best {
+				best = cnt[zkey(val(u))]
 			}
 		}
 		seen := map[string]bool{}
 		for _, u := range us {
-			k := fmt.Sprint(val(u))
+			k := zkey(val(u))
 			if cnt[k] == best && !seen[k] {
 				seen[k] = true
 				e.points = append(e.points, epoint{t: b.tmax, v: val(u)})
@@ -697,10 +742,7 @@ func expect(f fspec, b batchIn, as string, usePT bool, mode string) expectation 
 	case "distinct":
 		seen := map[string]bool{}
 		for _, u := range sorted {
-			k := fmt.Sprint(val(u))
-			if k == "-0" {
-				k = "0" // -0 and +0 are the same value (IEEE equality), whichever sign is reported
-			}
+			k := zkey(val(u)) // -0 and +0 are the same value (IEEE equality), whichever sign is reported
 			if !seen[k] {
 				seen[k] = true
 				e.points = append(e.points, epoint{v: val(u)})
